@@ -30,10 +30,12 @@ LAT_DEN = 64
 LAT_TOL = {"wien2k": 5e-5}
 LAT_TOL_DEFAULT = 1e-6
 PRECISION_NOTE = (
-    "numbers read back are snapped before the exact comparison: fractional positions to the grid 2^-20 when within "
-    "2e-7 (all formats print >= 8 decimals), lattice entries / Gram entries to the grid 1/64 when within 1e-6 "
-    "(Wien2k: Gram within 5e-5, its struct file carries a,b,c,alpha,beta,gamma with 6 decimals), moments to 1/64 "
-    "within 1e-5; a number outside its window is sent unrounded and fails the exact comparison")
+    "numbers read back are snapped before the exact comparison, with windows derived from the generated format table "
+    "(Gen/WriterFormats.lean: decimals of each writer's lattice and position fields; theorem printed_precision): fractional positions to "
+    "the grid 2^-20 when within 2 x half a unit of the last printed decimal (propagated through the inverse lattice for Cartesian formats) "
+    "+ 1e-12, never more than 2e-7; lattice entries / metric entries to the grid 1/64 when within 2 x half a unit + 1e-12, never more than "
+    "1e-6 (Wien2k: metric window from its 6-decimal a,b,c,alpha,beta,gamma, never more than 5e-5); moments to 1/64 within 1e-5; a number "
+    "outside its window is sent unrounded and fails the exact comparison")
 
 POOL = [("Na", 11), ("Cl", 17), ("O", 8), ("Si", 14), ("Fe", 26), ("H", 1)]
 
@@ -170,7 +172,12 @@ def _crystal_output_from_ext(ext_text, d12_text):
     from phonopy.structure.atoms import atom_data
 
     ls = ext_text.split("\n")
-    lat = np.array([[float(x) for x in ls[i].split()] for i in (1, 2, 3)])
+    try:
+        lat = np.array([[float(x) for x in ls[i].split()] for i in (1, 2, 3)])
+        if lat.shape != (3, 3):
+            raise ValueError("lattice line with %d fields" % min(len(ls[i].split()) for i in (1, 2, 3)))
+    except ValueError as e:
+        raise Unparsable("EXTERNAL (fort.34) lattice lines are not blank-separated: %s" % e)
     nsym = int(ls[4])
     k = 5 + 4 * nsym
     n = int(ls[k])
@@ -333,7 +340,7 @@ def moments_of(cell):
     return m.reshape(len(cell), -1)
 
 
-def atoms_wire(cell, exact, moments=None):
+def atoms_wire(cell, exact, moments=None, ptol=None):
     """n (Z nm m... x y z)*"""
     mom = moments_of(cell) if moments is None else moments
     toks = [str(len(cell))]
@@ -342,7 +349,7 @@ def atoms_wire(cell, exact, moments=None):
         toks.append(str(int(z)))
         toks.append(str(len(ms)))
         toks += [fr(Fraction(float(m))) if exact else fr(snap(m, 64, 1e-5)) for m in ms]
-        toks += [fr(Fraction(float(x))) if exact else fr(snap(x, POS_DEN, POS_TOL)) for x in p]
+        toks += [fr(Fraction(float(x))) if exact else fr(snap(x, POS_DEN, POS_TOL if ptol is None else ptol)) for x in p]
     return " ".join(toks)
 
 
@@ -350,11 +357,65 @@ def lattice_wire(lat, exact, tol=LAT_TOL_DEFAULT):
     return " ".join(fr(Fraction(float(x))) if exact else fr(snap(x, LAT_DEN, tol)) for x in np.asarray(lat).ravel())
 
 
+# --------------------------------------------------------------------------
+# tolerances from the generated format table (Gen/WriterFormats.lean, read back through the driver)
+# --------------------------------------------------------------------------
+
+FORMATS = {}
+
+
+def set_formats(line):
+    """answer of the driver's `formats` request"""
+    FORMATS.clear()
+    for row in line.split(";"):
+        t = row.split()
+        if len(t) != 13:
+            raise ValueError("formats row %r" % row)
+        FORMATS[t[0]] = dict(lat_w=int(t[1]), lat_d=int(t[2]), lat_sep=t[3] == "1", lat_kind=t[4], latkind=t[5], pos_w=int(t[6]), pos_d=int(t[7]),
+                             pos_sep=t[8] == "1", pos_kind=t[9], cart=t[10] == "1", wraps=t[11] == "1", reader=t[12])
+
+
+def _half(d, kind, scale=1.0):
+    # repr prints the shortest round-tripping text: exact; fixed: half a unit of the last decimal
+    return 0.0 if kind == "repr" else 0.5 * 10.0 ** (-d)
+
+
+def pos_tol(interface, cell):
+    """window within which a read-back fractional coordinate may differ from the written one: twice the
+    half-unit of the printed decimals (propagated through L^-1 for Cartesian formats, including the lattice's own
+    printing error), plus 1e-12 for float arithmetic; never above POS_TOL"""
+    f = FORMATS.get(interface)
+    if f is None:
+        return POS_TOL
+    t = _half(f["pos_d"], f["pos_kind"])
+    if f["cart"]:
+        ninv = np.abs(np.linalg.inv(cell.cell)).sum(axis=0).max()
+        fmax = max(1.0, np.abs(cell.scaled_positions).max())
+        t = t * ninv * 3 + _half(f["lat_d"], f["lat_kind"]) * 9 * ninv * fmax
+    return min(2 * t + 1e-12, POS_TOL)
+
+
+def lat_tol(interface, cell):
+    f = FORMATS.get(interface)
+    cap = LAT_TOL.get(interface, LAT_TOL_DEFAULT)
+    if f is None:
+        return cap
+    h = _half(f["lat_d"], f["lat_kind"])
+    if f["latkind"] == "cellpar":
+        a = np.linalg.norm(cell.cell, axis=1).max()
+        t = 2 * a * h + a * a * h * np.pi / 180  # metric entries from lengths and angles (degrees)
+        return min(4 * t + 1e-10, cap)
+    if f["latkind"] == "triangular":
+        a = np.abs(cell.cell).sum(axis=1).max()
+        return min(1e-12 * max(1.0, a * a), cap)  # rotation in floats, numbers printed exactly
+    return min(2 * h + 1e-12, cap)
+
+
 def request(interface, cin, cout, out_moments=None):
     """Lean request comparing the input cell (exact) with the cell read back (snapped)."""
-    tol = LAT_TOL.get(interface, LAT_TOL_DEFAULT)
+    tol = lat_tol(interface, cin)
     a1 = atoms_wire(cin, True)
-    a2 = atoms_wire(cout, False, moments=out_moments)
+    a2 = atoms_wire(cout, False, moments=out_moments, ptol=pos_tol(interface, cin))
     l1 = lattice_wire(cin.cell, True)
     if interface in ROTATING:
         g = np.asarray(cout.cell) @ np.asarray(cout.cell).T
@@ -365,7 +426,8 @@ def request(interface, cin, cout, out_moments=None):
 def python_verdict(interface, cin, cout, out_moments=None):
     """Independent re-statement of the property on the same (snapped) numbers, in Python (diagnosis:
     which clause fails).  Must agree with the verified checker's verdict."""
-    tol = LAT_TOL.get(interface, LAT_TOL_DEFAULT)
+    tol = lat_tol(interface, cin)
+    ptol = pos_tol(interface, cin)
     if len(cin) != len(cout):
         return "natom %d -> %d" % (len(cin), len(cout))
     l1 = np.array([[Fraction(float(x)) for x in r] for r in cin.cell], dtype=object)
@@ -388,7 +450,7 @@ def python_verdict(interface, cin, cout, out_moments=None):
         out = []
         for i, (z, p) in enumerate(zip(cell.numbers, cell.scaled_positions)):
             if digits is None:
-                q = tuple((Fraction(float(x)) if exact else snap(x, POS_DEN, POS_TOL)) % 1 for x in p)
+                q = tuple((Fraction(float(x)) if exact else snap(x, POS_DEN, ptol)) % 1 for x in p)
             else:
                 q = tuple(round(float(x) % 1.0, digits) % 1.0 for x in p)
             mm = ()
@@ -420,7 +482,7 @@ def python_verdict(interface, cin, cout, out_moments=None):
 
     d = match(True, 5e-6)
     if d is not None:
-        return "positions agree only to %.1e (window %.0e)" % (d, POS_TOL)
+        return "positions agree only to %.1e (window %.1e)" % (d, ptol)
     if match(False, 5e-6) is not None:
         return "species attached to the wrong positions"
     return "atom sets differ"
